@@ -228,8 +228,18 @@ def same_value(a, b):
 
 
 def key_rule(site, I, rep, target_common, assumed_params=()):
-    fc = first_components(site.key, I)
+    fc0 = first_components(site.key, I)
     where = site.where()
+    fc = []
+    for k0, kind, src, cs in fc0:
+        # a first coordinate that is itself a guarded choice (x if c else y): decide the alternatives separately,
+        # unless a dominating test already covers the whole expression
+        if kind == "explicit" and k0.op in ("ifexp", "phi") and target_common is not None \
+                and not (guards_differ(site.guards + cs, k0, target_common) or all(guards_differ(site.guards + cs, k0, tc) for tc in tm.alts(target_common))):
+            for k0a, cs2 in _alts_cond(k0, list(cs)):
+                fc.append((k0a, kind, src, cs2))
+        else:
+            fc.append((k0, kind, src, cs))
     for k0, kind, src, cs in fc:
         g = site.guards + cs
         cons = "%s: key of %s" % (site.root.qualname, _short(site.value))
